@@ -1411,6 +1411,34 @@ pub fn build(full_name: &str, level: u8) -> Option<Scenario> {
                 s.prefix.push(Action::Crash(2, 9));
                 s.down_forever = vec![2];
             }
+            if n.contains("-cclag") {
+                // follower 3 applies lazily and takes two inputs per Ready round. "Add voter 4"
+                // (index 2) is committed everywhere and handed to node 3's application, which has
+                // not applied it yet. Node 3 then misses "remove 4" (3) and a normal entry (4);
+                // the leader compacted: node 3 is caught up by a snapshot (configuration
+                // {1,2,3} again) while the old membership entry is still waiting to be applied
+                s = Scenario::new(name, 4);
+                s.voters = vec![1, 2, 3];
+                s.nodes[2].apply_lag = true;
+                s.inputs_per_ready = 2;
+                s.cc_menu = vec![CcSpec::V1(0, 4), CcSpec::V1(1, 4)];
+                s.prefix = vec![
+                    Action::Timeout(1),
+                    Action::Settle,
+                    Action::HoldApply(true),
+                    Action::ProposeCc(1, 0),
+                    Action::Settle,
+                    Action::Crash(3, 9),
+                    Action::ProposeCc(1, 1),
+                    Action::Settle,
+                    Action::Propose(1, 0),
+                    Action::Settle,
+                    Action::Compact(1),
+                    Action::DropAll,
+                    Action::Restart(3),
+                    Action::HoldApply(false),
+                ];
+            }
             if n.contains("-selfelect") {
                 // voters {1,2}; leader 1 demoted itself to learner (it keeps leading), so node 2
                 // is the only voter. Node 2 persists asynchronously; it asked for a snapshot,
@@ -1540,6 +1568,11 @@ pub fn build(full_name: &str, level: u8) -> Option<Scenario> {
                 s.timeoutable = vec![2];
                 s.clients_at = vec![];
             }
+            if n.contains("-cclag") {
+                s.crashable = vec![];
+                s.timeoutable = vec![];
+                s.clients_at = vec![];
+            }
             if n.contains("-lazy") {
                 s.inputs_per_ready = 2;
             }
@@ -1595,6 +1628,10 @@ pub fn build(full_name: &str, level: u8) -> Option<Scenario> {
                 if n.contains("-busy") {
                     // the leader's application is still building the snapshot once
                     c.snapbusy = 1;
+                }
+                if n.contains("-cclag") {
+                    c.lazy = 3;
+                    c.snapfail = 0;
                 }
                 if n.contains("-selfelect") {
                     c.timeouts = 1;
